@@ -15,12 +15,15 @@ package udp
 
 import (
 	"context"
+	"errors"
 	"net"
 	"reflect"
 
 	"github.com/hprose/hprose-golang/v3/internal/convert"
 	"github.com/hprose/hprose-golang/v3/rpc/core"
 )
+
+var errResponseTooLarge = errors.New("hprose/rpc/udp: response entity too large")
 
 type Handler struct {
 	Service *core.Service
@@ -146,12 +149,18 @@ func (h *Handler) send(ctx context.Context, conn *net.UDPConn, queue chan data, 
 			return
 		case response := <-queue:
 			index, body, e, addr := response.Index, response.Body, response.Error, response.Addr
+			if e == nil && len(body) > maxBodyLength {
+				e = errResponseTooLarge
+			}
 			if e != nil {
 				index |= 0x8000
 				if e == core.ErrRequestEntityTooLarge {
 					body = convert.ToUnsafeBytes(core.RequestEntityTooLarge)
 				} else {
 					body = convert.ToUnsafeBytes(e.Error())
+				}
+				if len(body) > maxBodyLength {
+					body = body[:maxBodyLength]
 				}
 				h.onError(conn, e)
 			}
